@@ -103,7 +103,7 @@ def run(tier, seed, open_findings):
     tjobs = [(g1, g2, '1.1', False) for g1 in C03.GW11 for g2 in C03.GW11] + [(g1, g2, '1.0', True) for g1 in C03.GW for g2 in C03.GW]
     tres = pmap(C03.eval_two_groups, tjobs, chunk=4)
     tfail = [dict(case=dict(two_groups=list(r['args'])), observed=[list(b) for b in r['bad'][:4]], required='a type that references two attribute groups admits the intersection of their wildcards') for r in tres if r]
-    two = result('C16.two_attribute_groups_intersection', f'{len(tjobs)} schemas: one type referencing two attribute groups with wildcards (XSD 1.1 incl. notNamespace / notQName; XSD 1.0 with the second group in an imported schema) x 6 names',
+    two = result('C16.two_attribute_groups_intersection', f'{len(tjobs)} schemas: one type referencing two attribute groups with wildcards, and under XSD 1.1 an extension that adds the second group to a type with the first: the union (XSD 1.1 incl. notNamespace / notQName; XSD 1.0 with the second group in an imported schema) x 6 names',
                  len(tjobs) * 6, tfail, exhaustive=True, distinct=len(tjobs) * 6)
     return [two, result('C16.pairs_through_real_schemas', f'{len(jobs)} ordered pairs of constraints x (extension, attribute group, restriction, choice of two xs:any) over the universe {UNIVERSE}', len(jobs) * 4, fails,
                    exhaustive=True, samples=[dict(a=['namespace', '##other'], b=['namespace', '##targetNamespace urn:b'], op='extension')], distinct=len(jobs) * 4)]
